@@ -807,9 +807,10 @@ func runSession(o *hx.Out, cat string, cfg *sessCfg) {
 	var regToks []string
 	var regVerify func(*registry.Registries) string
 	var regWire [][]byte
+	var regDump func(*registry.Registries) []string
 	if cfg.stock {
 		var regs registry.Registries
-		regs, regToks, regWire, regVerify = genRegistries(o.R, cfg.regMode)
+		regs, regToks, regWire, regVerify, regDump = genRegistries(o.R, cfg.regMode)
 		ch = &server.Configurations{Registries: regs}
 	}
 	srv := &server.Server{
@@ -1058,8 +1059,13 @@ func runSession(o *hx.Out, cat string, cfg *sessCfg) {
 	caseLine := fmt.Sprintf("join thr=%d name=%s claim=%s host=%s port=%d chk=%s cfg=%s regs=%s uuid=%s sched=%s pc=%s ps=%s",
 		cfg.thr, hx.Hex([]byte(cfg.name)), hx.Hex(claim[:]), hx.Hex([]byte(host)), port, chkTok, cfgTok, regsTok(regToks), hx.Hex(off[:]), cfg.sched,
 		playTok(cfg.c2s, joinErr == nil), playTok(cfg.s2c, joinErr == nil))
-	implLine := fmt.Sprintf("join %s %s bname=%s buuid=%s sname=%s suuid=%s sproto=%d c2s=%s s2c=%s pc=%s ps=%s",
-		botOut, srvOut, hx.Hex([]byte(client.Name)), hx.Hex(client.UUID[:]), hx.Hex([]byte(sname)), suuid, sproto,
+	// the bot's registries after the join, rendered like the case line's regs= and digested
+	bregs := "-"
+	if joinErr == nil && cfg.stock {
+		bregs = regsTok(regDump(&client.Registries))
+	}
+	implLine := fmt.Sprintf("join %s %s bname=%s buuid=%s sname=%s suuid=%s sproto=%d bregs=%x c2s=%s s2c=%s pc=%s ps=%s",
+		botOut, srvOut, hx.Hex([]byte(client.Name)), hx.Hex(client.UUID[:]), hx.Hex([]byte(sname)), suuid, sproto, md5.Sum([]byte(bregs)),
 		showFrames(c2sF[:cutC]), showFrames(s2cF[:cutS]), showPlay(c2sF[cutC:]), showPlay(s2cF[cutS:]))
 	o.Case(cat, true, caseLine, implLine)
 	if cfg.rec != nil {
@@ -1211,7 +1217,7 @@ func rawOf(v any) (m nbt.RawMessage) {
 
 // one registry: fills dst, returns the reference image of the registry (entry count, then per entry
 // key, true, NBT of the value - written from the protocol text) and a check of a received copy
-func fillReg[E any](dst *registry.Registry[E], keys []string, vals []E) ([]byte, string, func(*registry.Registry[E]) string) {
+func fillReg[E any](dst *registry.Registry[E], keys []string, vals []E) ([]byte, string, func(*registry.Registry[E]) string, func(*registry.Registry[E]) string) {
 	img := refVarIntBytes(len(keys))
 	var ents []string // <hex key>:<hex NBT of the value> per entry, for the model's reg_write
 	for i, k := range keys {
@@ -1226,7 +1232,22 @@ func fillReg[E any](dst *registry.Registry[E], keys []string, vals []E) ([]byte,
 	if len(ents) > 0 {
 		etok = strings.Join(ents, "+")
 	}
-	return img, etok, func(got *registry.Registry[E]) string {
+	dump := func(got *registry.Registry[E]) string { // the entries of a received copy in the token format
+		var es []string
+		for _, k := range keys {
+			_, v := got.Get(k)
+			if v == nil {
+				es = append(es, hx.Hex([]byte(k))+":missing")
+				continue
+			}
+			es = append(es, hx.Hex([]byte(k))+":"+hx.Hex(refNBT(v)))
+		}
+		if len(es) == 0 {
+			return "-"
+		}
+		return strings.Join(es, "+")
+	}
+	return img, etok, dump, func(got *registry.Registry[E]) string {
 		for i, k := range keys {
 			id, v := got.Get(k)
 			if v == nil || int(id) != i || !reflect.DeepEqual(*v, vals[i]) {
@@ -1266,7 +1287,7 @@ func genRaw(r *hx.Rng) nbt.RawMessage {
 
 // the registries a stock server sends, the `regs=` tokens of the case line (struct order) and the check
 // of the bot's copy
-func genRegistries(r *hx.Rng, mode int) (registry.Registries, []string, [][]byte, func(*registry.Registries) string) {
+func genRegistries(r *hx.Rng, mode int) (registry.Registries, []string, [][]byte, func(*registry.Registries) string, func(*registry.Registries) []string) {
 	regs := registry.NewNetworkCodec()
 	n := func() int {
 		switch mode {
@@ -1279,6 +1300,7 @@ func genRegistries(r *hx.Rng, mode int) (registry.Registries, []string, [][]byte
 	}
 	var toks []string
 	var checks []func(*registry.Registries) string
+	var dumps []func(*registry.Registries) string
 	var wire [][]byte // what each RegistryData packet must carry: Identifier(id) ++ registry image
 	add := func(id string, img []byte, etok string) {
 		toks = append(toks, hx.Hex([]byte(id))+"/"+etok)
@@ -1295,8 +1317,11 @@ func genRegistries(r *hx.Rng, mode int) (registry.Registries, []string, [][]byte
 		cts[i].Chat.Style.Italic = r.Intn(2) == 0
 		cts[i].Chat.Style.Color = []string{"", "gray", "red"}[r.Intn(3)]
 	}
-	img, et, c1 := fillReg(&regs.ChatType, genKeys(r, k, "chat"), cts)
+	img, et, d1, c1 := fillReg(&regs.ChatType, genKeys(r, k, "chat"), cts)
 	add("minecraft:chat_type", img, et)
+	dumps = append(dumps, func(d *registry.Registries) string {
+		return hx.Hex([]byte("minecraft:chat_type")) + "/" + d1(&d.ChatType)
+	})
 	checks = append(checks, func(d *registry.Registries) string { return c1(&d.ChatType) })
 
 	k = n()
@@ -1307,8 +1332,11 @@ func genRegistries(r *hx.Rng, mode int) (registry.Registries, []string, [][]byte
 			dts[i].Effects, dts[i].DeathMessageType = "burning", "fall_variants"
 		}
 	}
-	img, et, c2 := fillReg(&regs.DamageType, genKeys(r, k, "damage"), dts)
+	img, et, d2, c2 := fillReg(&regs.DamageType, genKeys(r, k, "damage"), dts)
 	add("minecraft:damage_type", img, et)
+	dumps = append(dumps, func(d *registry.Registries) string {
+		return hx.Hex([]byte("minecraft:damage_type")) + "/" + d2(&d.DamageType)
+	})
 	checks = append(checks, func(d *registry.Registries) string { return c2(&d.DamageType) })
 
 	k = n()
@@ -1322,8 +1350,11 @@ func genRegistries(r *hx.Rng, mode int) (registry.Registries, []string, [][]byte
 			dims[i].MonsterSpawnLightLevel = rawOf(map[string]any{"type": "minecraft:uniform", "value": map[string]any{"min_inclusive": int32(0), "max_inclusive": int32(7)}})
 		}
 	}
-	img, et, c3 := fillReg(&regs.DimensionType, genKeys(r, k, "dim"), dims)
+	img, et, d3, c3 := fillReg(&regs.DimensionType, genKeys(r, k, "dim"), dims)
 	add("minecraft:dimension_type", img, et)
+	dumps = append(dumps, func(d *registry.Registries) string {
+		return hx.Hex([]byte("minecraft:dimension_type")) + "/" + d3(&d.DimensionType)
+	})
 	checks = append(checks, func(d *registry.Registries) string { return c3(&d.DimensionType) })
 
 	raws := []struct {
@@ -1346,18 +1377,25 @@ func genRegistries(r *hx.Rng, mode int) (registry.Registries, []string, [][]byte
 		for i := range vs {
 			vs[i] = genRaw(r)
 		}
-		img, et, c := fillReg(rw.reg(&regs), genKeys(r, k, "raw"), vs)
+		img, et, dr, c := fillReg(rw.reg(&regs), genKeys(r, k, "raw"), vs)
 		add(rw.id, img, et)
+		dumps = append(dumps, func(d *registry.Registries) string { return hx.Hex([]byte(rw.id)) + "/" + dr(rw.reg(d)) })
 		checks = append(checks, func(d *registry.Registries) string { return c(rw.reg(d)) })
 	}
 	return regs, toks, wire, func(d *registry.Registries) string {
-		for i, c := range checks {
-			if m := c(d); m != "" {
-				return fmt.Sprintf("registry #%d: %s", i, m)
+			for i, c := range checks {
+				if m := c(d); m != "" {
+					return fmt.Sprintf("registry #%d: %s", i, m)
+				}
 			}
+			return ""
+		}, func(d *registry.Registries) []string {
+			var ts []string
+			for _, f := range dumps {
+				ts = append(ts, f(d))
+			}
+			return ts
 		}
-		return ""
-	}
 }
 
 // ---------------------------------------------------------------- the peer stops: cut sessions
@@ -1510,7 +1548,7 @@ func srvCut(o *hx.Out, rc *recorded, k int) {
 	gp := &gameplay{c2s: cfg.c2s}
 	var ch server.ConfigHandler = finishOnly{}
 	if cfg.stock {
-		regs, _, _, _ := genRegistries(o.R.Fork(), cfg.regMode)
+		regs, _, _, _, _ := genRegistries(o.R.Fork(), cfg.regMode)
 		ch = &server.Configurations{Registries: regs}
 	}
 	srv := &server.Server{
